@@ -14,6 +14,123 @@ use rand_xoshiro::Xoshiro256Plus;
 #[cfg(feature = "serde")]
 use serde_crate::{Deserialize, Serialize};
 
+/// Verification hooks (`--cfg linfa_verif` only): one event per step of the EM outer loop of `fit`
+/// (`gmm.init`, `gmm.iter`, `gmm.run_end`, `gmm.result`).  Floats are logged as the bit patterns of
+/// their `f64` value.
+#[cfg(linfa_verif)]
+mod verif {
+    use linfa::verif_hook as vh;
+
+    fn bits<F: linfa::Float>(v: F) -> String {
+        format!("\"{:016x}\"", v.to_f64().map(f64::to_bits).unwrap_or(0))
+    }
+
+    /// step-level events wanted: hook recording is on and the environment has `LINFA_VERIF_STEPS` set
+    /// (read once), so that other consumers of hook events see exactly the events they know
+    fn steps_on() -> bool {
+        use std::sync::atomic::{AtomicUsize, Ordering};
+        static STEPS: AtomicUsize = AtomicUsize::new(0);
+        if !vh::enabled() {
+            return false;
+        }
+        match STEPS.load(Ordering::Relaxed) {
+            0 => {
+                let on = std::env::var_os("LINFA_VERIF_STEPS").is_some();
+                STEPS.store(if on { 2 } else { 1 }, Ordering::Relaxed);
+                on
+            }
+            v => v == 2,
+        }
+    }
+
+    /// the mixture the EM iterations start from
+    pub(super) fn init<F: linfa::Float>(weights: &ndarray::Array1<F>, means: &ndarray::Array2<F>) {
+        if steps_on() {
+            let w: Vec<String> = weights.iter().map(|v| bits(*v)).collect();
+            let m: Vec<String> = means
+                .rows()
+                .into_iter()
+                .map(|r| {
+                    let cells: Vec<String> = r.iter().map(|v| bits(*v)).collect();
+                    format!("[{}]", cells.join(","))
+                })
+                .collect();
+            vh::emit(&format!(
+                "\"ev\":\"gmm.init\",\"weights\":[{}],\"means\":[{}]",
+                w.join(","),
+                m.join(",")
+            ));
+        }
+    }
+
+    /// EM iteration `it` (1-based) of run `run` (1-based) is complete: lower bound before and after,
+    /// their difference next to the tolerance, and the branch the loop took
+    #[allow(clippy::too_many_arguments)]
+    pub(super) fn iter<F: linfa::Float>(
+        run: u64,
+        it: u64,
+        prev_lower_bound: F,
+        lower_bound: F,
+        change: F,
+        tolerance: F,
+        max_n_iterations: u64,
+        converged: bool,
+    ) {
+        if steps_on() {
+            vh::emit(&format!(
+                "\"ev\":\"gmm.iter\",\"run\":{},\"it\":{},\"prev\":{},\"lb\":{},\"change\":{},\"tol\":{},\"maxit\":{},\"dec\":\"{}\"",
+                run,
+                it,
+                bits(prev_lower_bound),
+                bits(lower_bound),
+                bits(change),
+                bits(tolerance),
+                max_n_iterations,
+                if converged { "converged" } else { "continue" }
+            ));
+        }
+    }
+
+    /// run `run` ended: its lower bound, the iteration it converged at (0-based as in the code, -1: budget
+    /// used up), whether it replaced the best run so far, the best lower bound after the decision
+    pub(super) fn run_end<F: linfa::Float>(
+        run: u64,
+        lower_bound: F,
+        converged_iter: Option<u64>,
+        kept: bool,
+        best: F,
+    ) {
+        if steps_on() {
+            vh::emit(&format!(
+                "\"ev\":\"gmm.run_end\",\"run\":{},\"lb\":{},\"conv\":{},\"kept\":{},\"best\":{}",
+                run,
+                bits(lower_bound),
+                converged_iter.map(|i| i as i64).unwrap_or(-1),
+                kept,
+                bits(best)
+            ));
+        }
+    }
+
+    /// what `fit` is about to return after `runs` runs
+    pub(super) fn result<F: linfa::Float>(
+        runs: u64,
+        best_converged: bool,
+        have_params: bool,
+        best: F,
+    ) {
+        if steps_on() {
+            vh::emit(&format!(
+                "\"ev\":\"gmm.result\",\"runs\":{},\"conv\":{},\"params\":{},\"best\":{}",
+                runs,
+                best_converged,
+                have_params,
+                bits(best)
+            ));
+        }
+    }
+}
+
 #[cfg_attr(
     feature = "serde",
     derive(Serialize, Deserialize),
@@ -422,6 +539,8 @@ impl<F: Float, R: Rng + Clone, D: Data<Elem = F>, T> Fit<ArrayBase<D, Ix2>, T, G
     fn fit(&self, dataset: &DatasetBase<ArrayBase<D, Ix2>, T>) -> Result<Self::Object, GmmError> {
         let observations = dataset.records().view();
         let mut gmm = GaussianMixtureModel::<F>::new(self, dataset, self.rng())?;
+        #[cfg(linfa_verif)]
+        verif::init(&gmm.weights, &gmm.means);
 
         let mut max_lower_bound = -F::infinity();
         let mut best_params = None;
@@ -429,7 +548,13 @@ impl<F: Float, R: Rng + Clone, D: Data<Elem = F>, T> Fit<ArrayBase<D, Ix2>, T, G
 
         let n_runs = self.n_runs();
 
+        #[cfg(linfa_verif)]
+        let mut verif_run = 0u64;
         for _ in 0..n_runs {
+            #[cfg(linfa_verif)]
+            {
+                verif_run += 1;
+            }
             let mut lower_bound = -F::infinity();
 
             let mut converged_iter: Option<u64> = None;
@@ -442,17 +567,61 @@ impl<F: Float, R: Rng + Clone, D: Data<Elem = F>, T> Fit<ArrayBase<D, Ix2>, T, G
                 let change = lower_bound - prev_lower_bound;
                 if change.abs() < self.tolerance() {
                     converged_iter = Some(n_iter);
+                    #[cfg(linfa_verif)]
+                    verif::iter(
+                        verif_run,
+                        n_iter + 1,
+                        prev_lower_bound,
+                        lower_bound,
+                        change,
+                        self.tolerance(),
+                        self.max_n_iterations(),
+                        true,
+                    );
                     break;
                 }
+                #[cfg(linfa_verif)]
+                verif::iter(
+                    verif_run,
+                    n_iter + 1,
+                    prev_lower_bound,
+                    lower_bound,
+                    change,
+                    self.tolerance(),
+                    self.max_n_iterations(),
+                    false,
+                );
             }
 
+            #[cfg(linfa_verif)]
+            let mut verif_kept = false;
             if lower_bound > max_lower_bound {
                 max_lower_bound = lower_bound;
                 gmm.refresh_precisions_full();
                 best_params = Some(gmm.clone());
                 best_iter = converged_iter;
+                #[cfg(linfa_verif)]
+                {
+                    verif_kept = true;
+                }
             }
+            #[cfg(linfa_verif)]
+            verif::run_end(
+                verif_run,
+                lower_bound,
+                converged_iter,
+                verif_kept,
+                max_lower_bound,
+            );
         }
+
+        #[cfg(linfa_verif)]
+        verif::result(
+            verif_run,
+            best_iter.is_some(),
+            best_params.is_some(),
+            max_lower_bound,
+        );
 
         match best_iter {
             Some(_n_iter) => match best_params {
